@@ -174,8 +174,13 @@ class MetricReceiver(CarbonServerProtocol, TimeoutMixin):
       return
     if datapoint[1] != datapoint[1]:  # filter out NaN values
       return
+    try:
+      timestamp = int(datapoint[0])
+    except (ValueError, OverflowError):  # NaN or infinite timestamp
+      log.listener('invalid timestamp received for %s, ignoring [%s]' % (metric, datapoint[0]))
+      return
     # use current time if none given: https://github.com/graphite-project/carbon/issues/54
-    if int(datapoint[0]) == -1:
+    if timestamp == -1:
       datapoint = (time.time(), datapoint[1])
     res = settings.MIN_TIMESTAMP_RESOLUTION
     if res:
@@ -189,13 +194,14 @@ class MetricLineReceiver(MetricReceiver, LineOnlyReceiver):
   delimiter = b'\n'
 
   def lineReceived(self, line):
-    if sys.version_info >= (3, 0):
-      line = line.decode('utf-8')
-
     try:
+      if sys.version_info >= (3, 0):
+        line = line.decode('utf-8')
       metric, value, timestamp = line.strip().split()
       datapoint = (float(timestamp), float(value))
     except ValueError:
+      if isinstance(line, bytes):  # undecodable
+        line = line.decode('utf-8', 'replace')
       if len(line) > 400:
         line = line[:400] + '...'
       log.listener('invalid line received from client %s, ignoring [%s]' %
@@ -217,16 +223,18 @@ class MetricDatagramReceiver(MetricReceiver, DatagramProtocol):
 
   def datagramReceived(self, data, addr):
     (host, _) = addr
-    if sys.version_info >= (3, 0):
-      data = data.decode('utf-8')
 
     for line in data.splitlines():
       try:
+        if sys.version_info >= (3, 0):
+          line = line.decode('utf-8')
         metric, value, timestamp = line.strip().split()
         datapoint = (float(timestamp), float(value))
 
         self.metricReceived(metric, datapoint)
       except ValueError:
+        if isinstance(line, bytes):  # undecodable
+          line = line.decode('utf-8', 'replace')
         if len(line) > 400:
           line = line[:400] + '...'
         log.listener('invalid line received from %s, ignoring [%s]' %
@@ -247,9 +255,9 @@ class MetricPickleReceiver(MetricReceiver, Int32StringReceiver):
   def stringReceived(self, data):
     try:
       datapoints = self.unpickler.loads(data)
+      datapoints = iter(datapoints)
     # Pickle can throw a wide range of exceptions
-    except (pickle.UnpicklingError, ValueError, IndexError, ImportError,
-            KeyError, EOFError) as exc:
+    except Exception as exc:
       log.listener('invalid pickle received from %s, error: "%s", ignoring' % (
                    self.peerName, exc))
       return
@@ -263,12 +271,15 @@ class MetricPickleReceiver(MetricReceiver, Int32StringReceiver):
 
       try:
         datapoint = (float(value), float(timestamp))  # force proper types
-      except (ValueError, TypeError):
+      except (ValueError, TypeError, OverflowError):
         continue
 
       # convert python2 unicode objects to str/bytes
       if not isinstance(metric, str):
-        metric = metric.encode('utf-8')
+        try:
+          metric = metric.encode('utf-8')
+        except AttributeError:
+          continue
 
       self.metricReceived(metric, datapoint)
 
